@@ -512,6 +512,90 @@ pub fn run(tier: Tier) -> i32 {
     for p in parts {
         rep.stats.merge(p);
     }
+    // identifier-shaped words: every word over the letters of the keywords plus _ . # 1 that is not
+    // itself a keyword must be an ordinary identifier wherever an identifier may stand
+    {
+        let alpha = ["a", "n", "d", "o", "r", "t", "l", "f", "i", "s", "_", ".", "#", "1"];
+        let maxlen = if th { 5 } else { 4 };
+        let total = crate::c04::count_upto(alpha.len(), maxlen);
+        let words: Vec<String> = (1..total)
+            .map(|i| crate::c04::nth_string(&alpha, i))
+            .filter(|w| {
+                let c = w.chars().next().unwrap();
+                c.is_ascii_alphabetic() && !["and", "or", "not", "all", "of", "int", "flt", "str"].contains(&w.as_str())
+            })
+            .collect();
+        rep.stats.count("identifier_words", words.len() as u64);
+        let tables_ref = &tables;
+        let parts: Vec<Stats> = words
+            .par_chunks(512)
+            .map(|chunk| {
+                let mut st = Stats::default();
+                for w in chunk {
+                    let forms = [
+                        (format!("{} and B", w), 0u8),
+                        (format!("B or {}", w), 1),
+                        (format!("not {}", w), 2),
+                        (format!("B and not {} or B", w), 3),
+                    ];
+                    for (cond, form) in forms {
+                        let yaml = format!(
+                            "detection:\n  {}: [{{f1: v}}]\n  B: [{{f2: v}}]\n  condition: {}\ntrue_positives: []\ntrue_negatives: []\n",
+                            serde_json::to_string(w).unwrap(),
+                            serde_json::to_string(&cond).unwrap()
+                        );
+                        st.transitions += 1;
+                        let r = match eng::load(&yaml) {
+                            Ok(r) => r,
+                            Err(e) => {
+                                st.push_violation(Violation {
+                                    signature: "keyword-like-word-not-an-identifier:rejected".into(),
+                                    witness: format!("condition {:?} over identifier {:?} does not load: {:?}", cond, w, e),
+                                    replay: json!({"kind":"condition","condition":cond,"rule_yaml":yaml}),
+                                });
+                                continue;
+                            }
+                        };
+                        st.nontrivial += 1;
+                        for x in [-1i8, 0, 1] {
+                            for y in [-1i8, 0, 1] {
+                                let mut d = MObj::new();
+                                if x >= 0 {
+                                    d.set("f1", s(if x == 1 { "v" } else { "w" }));
+                                }
+                                if y >= 0 {
+                                    d.set("f2", s(if y == 1 { "v" } else { "w" }));
+                                }
+                                let t = tables_ref;
+                                let want = match form {
+                                    0 => t.and2[ix(x)][ix(y)],
+                                    1 => t.or2[ix(y)][ix(x)],
+                                    2 => t.not1[ix(x)],
+                                    _ => t.and2[ix(y)][ix(t.or2[ix(t.not1[ix(x)])][ix(y)])],
+                                };
+                                let got = eng::val3(&r, &d).unwrap_or(2);
+                                st.states += 1;
+                                st.transitions += 1;
+                                st.traces += 1;
+                                st.evaluations += 1;
+                                if got != want {
+                                    st.push_violation(Violation {
+                                        signature: "keyword-like-word-not-an-identifier:wrong-verdict".into(),
+                                        witness: format!("condition {:?}: identifier={} B={} gives {} ; composed from the measured tables {}", cond, eng::v3name(x), eng::v3name(y), eng::v3name(got), eng::v3name(want)),
+                                        replay: json!({"kind":"reference","rule_yaml":yaml,"document":crate::report::mobj_to_json(&d),"expected":eng::v3name(want)}),
+                                    });
+                                }
+                            }
+                        }
+                    }
+                }
+                st
+            })
+            .collect();
+        for p in parts {
+            rep.stats.merge(p);
+        }
+    }
     // sampled supplement: larger random conditions
     let mut rng = Rng::new(crate::report::seed());
     let mut sup = 0u64;
@@ -537,7 +621,7 @@ pub fn run(tier: Tier) -> i32 {
     );
     rep.stats.sample(json!({"bare":"A and B or not C","grammar_tree":"((A) and ((B) or (not (C))))"}));
     rep.stats.sample(json!({"bare":"android or order and nothing","names":"keyword-prefixed identifiers"}));
-    rep.rule = "every condition tree with up to N leaves: all binary shapes x and/or at every internal node x not on up to two nodes (including double negation) x leaf kinds (identifier, all(S), of(S,1), int(f)==1, 1<int(f)) over six name sets including keyword-prefixed identifiers (android, notx, not_a, or#b, and.c); printed with the minimal parentheses the stated grammar allows, fully parenthesised, with every single redundant parenthesis pair and with extra blanks/tabs; x all 3^k assignments of true/false/missing to the leaves. Oracle: every rendering must load and its three-valued result must equal the intended tree composed from the engine's own measured and/or/not tables (so a truth-table change cannot raise an alarm here)".into();
+    rep.rule = "every condition tree with up to N leaves: all binary shapes x and/or at every internal node x not on up to two nodes (including double negation) x leaf kinds (identifier, all(S), of(S,1), int(f)==1, 1<int(f)) over six name sets including keyword-prefixed identifiers (android, notx, not_a, or#b, and.c); printed with the minimal parentheses the stated grammar allows, fully parenthesised, with every single redundant parenthesis pair and with extra blanks/tabs; x all 3^k assignments of true/false/missing to the leaves. plus every word up to the length bound over {a n d o r t l f i s _ . # 1} that starts with a letter and is not itself a keyword, used as an identifier in four condition shapes x all 9 assignments. Oracle: every rendering must load and its three-valued result must equal the intended tree composed from the engine's own measured and/or/not tables (so a truth-table change cannot raise an alarm here)".into();
     rep.assumptions = vec!["malformed conditions (unbalanced parentheses, keyword followed by its own parenthesis) are not judged".into()];
     rep.finish()
 }
